@@ -33,6 +33,7 @@ def gen_requests(ctx):
         y0 = rng.vec(prob.m, rng.choice([0.0, 1.0, 10.0]))
         S0 = [rng.choice([0.5, 1.0, 4.0, 10.0]) for _ in range(prob.m)]
         mode = rng.choice(["alm", "alm", "alm_nosigma"])
+        if rng.random() < 0.25: prob.prov = rng.choice([0x80, 0x20, 0x40, 0x10, 0xa0, 0xfe, 0x0e, rng.randrange(0, 256) & 0xfe])   # provider mix (supplied members poison the work buffers)
         reqs.append(sl.Request(prob, x0, y0, S0, solver, direction, mode, params, rec_limit=0 if rng.random() < 0.5 else 400))
     return reqs
 
